@@ -19,6 +19,7 @@ class EmitT:
         s.tydefs = []   # ordered C definitions
         s.defined = set()
         s.fnptr_n = 0
+        s.in_ginit = False
 
     # ---- C type names
     def key(s, t):
@@ -104,6 +105,9 @@ class EmitT:
             return '((%s)%dU%s)' % (t.c(), x, 'LL' if bits > 32 else '')
         if v.kind == 'float': return Emit.fconst(s, t, v.val)
         if v.kind == 'null': return '((%s)0)' % s.cty(t)
+        if v.kind == 'undef' and s.o.get('ubchecks') and isinstance(t, IntT) and not s.in_ginit:
+            # LLVM undef (e.g. a member read before it was ever written): an arbitrary value, not zero
+            return '((%s)verif_poison_u64())' % t.c()
         if v.kind in ('undef', 'zero'):
             if isinstance(t, (StructT, ArrT)): return '((%s){0})' % s.cty(t)
             if isinstance(t, FloatT): return '((%s)0.0)' % t.k
@@ -159,11 +163,15 @@ class EmitT:
 
     # ---- globals
     def ginit(s, v, t):
+        s.in_ginit = True
+        try: return s.ginit_(v, t)
+        finally: s.in_ginit = False
+    def ginit_(s, v, t):
         if v is None or v.kind in ('zero', 'undef'): return '{0}' if isinstance(t, (StructT, ArrT)) else '0'
         if v.kind == 'str': return '{{' + ','.join(str(b) for b in v.val) + '}}'
         if v.kind == 'agg':
             els = t.els if isinstance(t, StructT) else [t.el] * t.n
-            inner = ', '.join(s.ginit(e, et) for e, et in zip(v.val, els))
+            inner = ', '.join(s.ginit_(e, et) for e, et in zip(v.val, els))
             return '{{' + inner + '}}' if isinstance(t, ArrT) else '{' + inner + '}'
         if isinstance(t, FloatT) and v.kind == 'float': return Emit.fconst(s, t, v.val)
         return s.val(v)
